@@ -5,7 +5,7 @@
    suspension may return spuriously; tokens left by resumes aimed at a running task are kept.
    Every task count n, every program, every schedule. *)
 From Coq Require Import List Arith Bool.
-From Pika Require Import Base.Conc Base.Agent Model.Join Proofs.JoinProofs.
+From Pika Require Import Base.Conc Base.Agent Model.Join Proofs.JoinProofs Proofs.JoinProgress.
 Import ListNotations.
 
 (* join() returned  ==>  the target's thread function has returned and its exit callbacks ran
@@ -75,9 +75,60 @@ Proof.
 Qed.
 Print Assumptions C13_interrupt_is_local.
 
-(* NOT PROVED (gap, see notes/design/C13.md): join_returns — "stuck c -> every task < n is PDone"
-   under injective, increasing handle targets.  The three orders of the exit callbacks versus
-   add/suspend are exercised below as Examples (tests, not theorems) and by the run-time watchdog. *)
+(* join() does return (safety form).  [stuck c]: no task can take a non-stutter step.
+   [inj_handles tgt h0]: a task is referred to by at most one valid handle (pika::thread is
+   move-only; two handles for one thread cannot exist).  [acyclic_targets tgt h0 n]: a valid handle
+   (t,k) refers to a task created later than t (t < tgt t k < n): no join cycles, no joins on
+   things that are not tasks.  In every reachable stuck state of the fixed code, for every task
+   count, program (bodies, yields, joins, detaches, ~jthread, interrupts, stale resumes by anybody
+   at any time = spurious returns of the suspension) and schedule — i.e. for all three orders of
+   the target's exit-callback run versus the joiner's add_thread_exit_callback / suspend —
+   nobody is blocked in join() and every task has terminated. *)
+Theorem C13_join_returns : forall tgt h0 n, inj_handles tgt h0 ->
+  forall progs sched, acyclic_targets tgt h0 n ->
+  let c := jrun true tgt h0 n progs sched in
+  stuck true tgt c ->
+  (forall t, blocked (ag (fst c) t) = false) /\ (forall t, t < n -> pc (snd c t) = PDone).
+Proof. exact join_returns. Qed.
+Print Assumptions C13_join_returns.
+
+(* without the acyclicity assumption (join cycles are legitimate deadlocks): a task that is blocked
+   in a stuck state sits in join()'s suspension on a valid handle whose target is not a task at
+   all or is itself blocked in a join — never on a target that has finished or could still run.
+   In particular a joiner is never left blocked by a target that ran its exit callbacks. *)
+Theorem C13_join_blocked_only_on_blocked_target : forall tgt h0 n, inj_handles tgt h0 ->
+  forall progs sched,
+  let c := jrun true tgt h0 n progs sched in
+  stuck true tgt c ->
+  forall t, blocked (ag (fst c) t) = true ->
+    exists k d, pc (snd c t) = PJoinWake k d /\ h0 t k = true /\
+                (pc (snd c (tgt t k)) = PIdle \/ blocked (ag (fst c) (tgt t k)) = true).
+Proof. exact join_blocked_only_on_blocked. Qed.
+Print Assumptions C13_join_blocked_only_on_blocked_target.
+
+(* why inj_handles is needed (E4 of the notes, API misuse only): two tasks joining the SAME target;
+   the second registers between the target's front()() and pop_front(); pop_front removes the new
+   entry; the second joiner is never resumed: stuck, task 1 blocked in join(), target PDone. *)
+Theorem C13_join_returns_shared_target_refuted :
+  let c := jrun true shared_tgt all_valid 3 shared_progs shared_sched in
+  stuck true shared_tgt c /\ blocked (ag (fst c) 1) = true /\ pc (snd c 1) = PJoinWake 0 false /\
+  pc (snd c 2) = PDone /\ pc (snd c 0) = PDone /\ bdone (fst c) 2 = true /\ flag (fst c) 1 2 = false.
+Proof. exact join_returns_shared_target_refuted. Qed.
+Print Assumptions C13_join_returns_shared_target_refuted.
+
+(* non-vacuity: the hypotheses are satisfiable (chain 0 joins 1 joins 2) and a stuck state with
+   everything terminated is reached after both joiners were blocked in join() *)
+Example C13_join_returns_hyps : inj_handles chain_tgt chain_h0 /\ acyclic_targets chain_tgt chain_h0 3.
+Proof. exact chain_hyps. Qed.
+Example C13_join_returns_example :
+  let c := jrun true chain_tgt chain_h0 3 chain_progs chain_sched in
+  stuck true chain_tgt c /\ pc (snd c 0) = PDone /\ pc (snd c 1) = PDone /\ pc (snd c 2) = PDone /\
+  In (EJoinRet 0 0) (log (fst c)) /\ In (EJoinRet 1 0) (log (fst c)) /\
+  let c1 := jrun true chain_tgt chain_h0 3 chain_progs (jp_sch (jp_rep 5 0 ++ jp_rep 5 1)) in
+  blocked (ag (fst c1) 0) = true /\ blocked (ag (fst c1) 1) = true.
+Proof. exact join_returns_example. Qed.
+
+(* the three orders are also exercised below as Examples (tests) and by the run-time watchdog. *)
 
 Definition tg1 : nat -> nat -> nat := fun _ _ => 1%nat.
 Definition all1 : nat -> nat -> bool := fun _ _ => true.
